@@ -113,10 +113,13 @@ Fixpoint set_key (k : str) (v : value) (d : list (str * value)) : list (str * va
   | [] => [(k, v)]
   | (k', x) :: r => if str_eqb k k' then (k', v) :: r else (k', x) :: set_key k v r
   end.
-(* the Type of a resource is a literal: it is put back after resolution *)
+(* the Type of a resource and the NAME in its Condition attribute are literals: they are put back after resolution
+   (resolved_resource["Type"] = value["Type"]; resolved_resource["Condition"] = value["Condition"], each when it is text) *)
+Definition keep_key (k : str) (orig d : list (str * value)) : list (str * value) :=
+  match lookup k orig with Some (VStr t) => set_key k (VStr t) d | _ => d end.
 Definition keep_type (orig resolved : value) : value :=
   match orig, resolved with
-  | VDict o, VDict d => match lookup K_Type o with Some (VStr t) => VDict (set_key K_Type (VStr t) d) | _ => resolved end
+  | VDict o, VDict d => VDict (keep_key K_Condition o (keep_key K_Type o d))
   | _, _ => resolved
   end.
 Definition resolve_resource (e : env) (r : value) : res value := r' <- resolve e r ;; Ok (keep_type r r').
